@@ -148,7 +148,7 @@ def mkBool (b : Bool) : FRes := .ok ⟨.bool b, false⟩
 
 /-- `Value.Index(i)` for `i ≥ 0` -/
 def vIndex (v : Val) (i : Nat) : Val :=
-  match v.resolved with
+  match v.reflected with
   | list _ xs => xs.getD i .nil
   | arr _ xs => xs.getD i .nil
   | str s => match (Utf8.runes s)[i]? with
@@ -171,7 +171,7 @@ def sliceBounds (len from_ to_ : Int) (toMissing : Bool) : Nat × Nat :=
 
 /-- `Value.Slice(i, j)` with `0 ≤ i ≤ j ≤ len` -/
 def vSlice (v : Val) (i j : Nat) : Val :=
-  match v.resolved with
+  match v.reflected with
   | list ty xs => .list ty ((xs.drop i).take (j - i))
   | arr ty xs => .list (b!"[]" ++ (ty.dropWhile (· != 0x5d)).drop 1) ((xs.drop i).take (j - i))
   | str s => .str (Utf8.ofRunes (((Utf8.runes s).drop i).take (j - i)))
@@ -191,8 +191,8 @@ def maxCharPadding : Int := 10000
 def maxFloatFormatDecimals : Int := 1000
 
 def joinVals (v : Val) : List Bytes :=
-  match v.resolved with
-  | str s => Utf8.runeStrings s
+  match v.reflected with
+  | str _ => Utf8.runeStrings v.toS   -- `range in.String()`: a Stringer's text, not its underlying string
   | list _ xs => xs.map Val.toS
   | arr _ xs => xs.map Val.toS
   | _ => []
